@@ -339,34 +339,49 @@ def conservation_validator(prog: Program, rep, RID: str):
     else:
         raise AnalysisError("check_flow_conservation: in/out sums not found")
     a, b = sums["in_edges"][0], sums["out_edges"][0]
-    # 3. decisive comparison
-    dec = [s for s in lp.body if isinstance(s, ast.If) and isinstance(s.test, ast.Compare) and len(s.test.ops) == 1 and
-           {norm(s.test.left), norm(s.test.comparators[0])} == {a, b}]
-    # reviewed alternative: `not math.isclose(a, b, rel_tol=r, abs_tol=t)` with tolerances <= 1e-6 (float flows that conserve flow as decimal
-    # numbers differ in the last binary digits; with == they are rejected as non-conserving)
-    close = [s for s in lp.body if isinstance(s, ast.If) and isinstance(s.test, ast.UnaryOp) and isinstance(s.test.op, ast.Not) and
-             isinstance(s.test.operand, ast.Call) and dotted(s.test.operand.func) in ("math.isclose", "isclose") and len(s.test.operand.args) == 2 and
-             {norm(x) for x in s.test.operand.args} == {a, b}]
-    if len(dec) != 1 and len(close) == 1:
-        tols = [k.value.value for k in close[0].test.operand.keywords if isinstance(k.value, ast.Constant) and isinstance(k.value.value, (int, float))]
-        rets_c = [n for n in close[0].body if isinstance(n, ast.Return)]
-        if len(tols) == len(close[0].test.operand.keywords) and all(0 <= t_ <= 1e-6 for t_ in tols) and rets_c and \
-                isinstance(rets_c[0].value, ast.Constant) and rets_c[0].value.value is False:
-            rep.ok(RID, key + ":verdict", f"a node whose in- and out-sums are not close (`{norm(close[0].test)}`) makes the validator return False", f.loc(close[0]))
+    # 3. decisive comparison.  Reviewed form: integral sums are compared exactly, non-integral floats with a tolerance <= 1e-6
+    #    (`!=` alone rejects 0.3 = 0.1 + 0.2; a relative tolerance alone accepts 2000000001 = 2000000000)
+    def is_dec(s_):
+        return isinstance(s_, ast.If) and isinstance(s_.test, ast.Compare) and len(s_.test.ops) == 1 and \
+            {norm(s_.test.left), norm(s_.test.comparators[0])} == {a, b}
+
+    def is_close(s_):
+        return isinstance(s_, ast.If) and isinstance(s_.test, ast.UnaryOp) and isinstance(s_.test.op, ast.Not) and \
+            isinstance(s_.test.operand, ast.Call) and dotted(s_.test.operand.func) in ("math.isclose", "isclose") and len(s_.test.operand.args) == 2 and \
+            {norm(x) for x in s_.test.operand.args} == {a, b}
+
+    def returns_false(s_):
+        rets_ = [n for n in s_.body if isinstance(n, ast.Return)]
+        return bool(rets_) and isinstance(rets_[0].value, ast.Constant) and rets_[0].value.value is False
+
+    def tol_ok(s_):
+        kws = s_.test.operand.keywords
+        tols = [k.value.value for k in kws if isinstance(k.value, ast.Constant) and isinstance(k.value.value, (int, float))]
+        return len(tols) == len(kws) and all(0 <= t_ <= 1e-6 for t_ in tols)
+    decs = [s_ for s_ in ast.walk(lp) if is_dec(s_)]
+    closes = [s_ for s_ in ast.walk(lp) if is_close(s_)]
+    guards = [s_ for s_ in lp.body if isinstance(s_, ast.If) and "is_integer" in norm(s_.test) and a in norm(s_.test) and b in norm(s_.test)]
+    if len(guards) == 1 and len(decs) == 1 and len(closes) == 1 and decs[0] in guards[0].body and closes[0] in guards[0].orelse:
+        d, cl = decs[0], closes[0]
+        if isinstance(d.test.ops[0], ast.NotEq) and returns_false(d) and returns_false(cl) and tol_ok(cl):
+            rep.ok(RID, key + ":decision", f"integral sums: `{norm(d.test)}` -> False; other sums: `{norm(cl.test)}` -> False", f.loc(guards[0]))
         else:
-            rep.violation(RID, key + ":verdict", f"the conservation verdict `{norm(close[0].test)}` uses a tolerance above 1e-6 or does not return False: non-conserving "
-                          "flows are accepted", f.loc(close[0]))
-    elif len(dec) != 1:
-        raise AnalysisError("check_flow_conservation: comparison of the two sums not recognised (a tolerance would change which inputs are rejected - review)")
-    else:
-        d = dec[0]
-        rets = [r for r in d.body if isinstance(r, ast.Return)]
-        if isinstance(d.test.ops[0], ast.NotEq) and rets and isinstance(rets[0].value, ast.Constant) and rets[0].value.value is False:
+            rep.violation(RID, key + ":decision", f"the conservation verdict (`{norm(d.test)}` / `{norm(cl.test)}`) does not answer False on every difference, or uses a tolerance "
+                          "above 1e-6", f.loc(guards[0]))
+    elif not guards and len(decs) == 1 and not closes:
+        d = decs[0]
+        if isinstance(d.test.ops[0], ast.NotEq) and returns_false(d):
             rep.violation(RID, key + ":decision", f"`{norm(d.test)}` compares two accumulated sums of flow values exactly: float flows that conserve flow as decimal numbers "
-                          "(0.3 -> 0.1 + 0.2 = 0.30000000000000004) are rejected as non-conserving although they are inside the documented domain; the reviewed form is "
-                          "`not math.isclose(in, out, ...)` with tolerances <= 1e-6", f.loc(d))
+                          "(0.3 -> 0.1 + 0.2 = 0.30000000000000004) are rejected as non-conserving although they are inside the documented domain", f.loc(d))
         else:
             rep.violation(RID, key + ":decision", f"`if {norm(d.test)}: {norm(d.body[0])[:40]}` does not answer False on every difference of inflow and outflow", f.loc(d))
+    elif not guards and len(closes) == 1 and not decs:
+        cl = closes[0]
+        rep.violation(RID, key + ":decision", f"`{norm(cl.test)}` is the only comparison of the two sums: a relative tolerance accepts integer flows that differ by one part in 1e9 "
+                      "(2000000001 vs 1500000000 + 500000000) as conserving, and the greedy decomposition then drops the leftover unit"
+                      + ("" if tol_ok(cl) and returns_false(cl) else "; the tolerance is above 1e-6 or the verdict is not False"), f.loc(cl))
+    else:
+        raise AnalysisError("check_flow_conservation: comparison of the two sums not recognised (exact for integral sums, tolerance <= 1e-6 otherwise - review)")
     # 4. True only after the whole loop
     trues = [r for r in ast.walk(f.node) if isinstance(r, ast.Return) and isinstance(r.value, ast.Constant) and r.value.value is True]
     last = f.node.body[-1]
@@ -549,6 +564,14 @@ def check(prog: Program, rep):
     nan_proof_ranges(prog, rep, "C19.R6")
     greedy_padding_guard(prog, rep, "C19.R6")
     node_mode_constraint_shapes(prog, rep, "C19.R6")
+    from rules.plumb import options_none_safe
+    options_none_safe(prog, rep, "C19.R6")
+    from rules.plumb import default_k_handled, additional_nodes_typed
+    default_k_handled(prog, rep, "C19.R6")
+    additional_nodes_typed(prog, rep, "C19.R6")
+    from rules.values import coefficients_converted
+    from rules.common import RuleProxy
+    coefficients_converted(prog, RuleProxy(rep, "C19.R6"), "C07.R8", ["kLeastAbsErrors", "kLeastAbsErrorsCycles", "kMinPathError", "kMinPathErrorCycles", "AbstractPathModelDAG", "MinErrorFlow"])
     from rules.values import data_rhs_converted
     from rules.common import RuleProxy
     data_rhs_converted(prog, RuleProxy(rep, "C19.R6"), "C02.R11", {"kFlowDecomp": ["_encode_flow_decomposition", "_encode_flow_decomposition_with_given_weights"],
